@@ -95,6 +95,7 @@ class HealSparseMap(object):
         self._primary = primary
         self.metadata = metadata
         self._is_view = _is_view
+        self._view_parent = None
         if self._sparse_map.dtype.fields is not None:
             self._is_rec_array = True
             if self._primary is None:
@@ -506,6 +507,8 @@ class HealSparseMap(object):
         """
         # We invalidate the n_valid cache here.
         self._n_valid = None
+        if self._view_parent is not None:
+            self._view_parent._n_valid = None
 
         # When None is specified, we use the sentinel value.
         no_append = False
@@ -1927,10 +1930,13 @@ class HealSparseMap(object):
             # on how they were constructed (though using make_empty should be safe).
             # However, these linked maps cannot be used to add new pixels which
             # is why there is the _is_view flag.
-            return HealSparseMap(cov_map=self._cov_map,
+            view = HealSparseMap(cov_map=self._cov_map,
                                  sparse_map=self._sparse_map[key],
                                  nside_sparse=self._nside_sparse, sentinel=_sentinel,
                                  _is_view=True)
+            # Writes through the view change this map: it must drop its cached n_valid.
+            view._view_parent = self
+            return view
 
         new_sparse_map = np.full_like(self._sparse_map[key], _sentinel)
 
